@@ -275,6 +275,11 @@ pub fn quote_identifier(s: &str) -> Cow<'_, str> {
 
 /// returns true if this identifier needs quotes
 fn needs_quotes(s: &str) -> bool {
+    // the empty identifier has no bare spelling, it is written `""`
+    if s.is_empty() {
+        return true;
+    }
+
     let mut chars = s.chars();
 
     // first char can not be a number unless escaped
@@ -347,7 +352,7 @@ pub(crate) fn parse_identifiers_normalized(s: &str, ignore_case: bool) -> Vec<St
         .unwrap_or_default()
         .into_iter()
         .map(|id| {
-            let is_double_quoted = if id.len() > 2 {
+            let is_double_quoted = if id.len() >= 2 {
                 let mut chars = id.chars();
                 chars.next() == Some('"') && chars.last() == Some('"')
             } else {
